@@ -131,6 +131,7 @@ pub fn replay(kind: &str, args: &[String]) -> Value {
             let q = |i: usize| U256::from_dec_str(&args[i]).expect("u256 argument");
             ev_arith(&args[0], &args[1], q(2), q(3), q(4))
         }
+        "text" => ev_text(&args[0], U256::from_dec_str(&args[1]).expect("u256 argument"), &args[2]),
         _ => panic!("unknown math event kind {}", kind),
     }
 }
@@ -228,6 +229,160 @@ pub fn ev_arith(ty: &str, op: &str, a: U256, b: U256, c: U256) -> Value {
     json!({"k": "arith", "ty": ty, "op": op, "a": j256(&a), "b": j256(&b), "c": j256(&c), "r": r,
            "args": [ty.to_string(), op.to_string(), a.to_string(), b.to_string(), c.to_string()],
            "h": format!("{} {} a={} b={} c={}", ty, op, a, b, c)})
+}
+
+// ---------------------------------------------------------------------------------------------
+// C18: text, JSON and width conversions
+// ---------------------------------------------------------------------------------------------
+fn jstr(s: &str) -> Value {
+    json!(s.as_bytes().iter().map(|b| *b as u32).collect::<Vec<u32>>())
+}
+
+fn parse_res(r: Option<Result<U256, ()>>) -> Value {
+    match r {
+        Some(Ok(v)) => json!({"ok": true, "v": j256(&v), "why": ""}),
+        Some(Err(())) => json!({"ok": false, "v": [], "why": "err"}),
+        None => json!({"ok": false, "v": [], "why": "panic"}),
+    }
+}
+
+/// op: dec_render | uint_render | dec_parse | uint_parse | dec_roundtrip | uint_roundtrip |
+///     dec_to128 | dec_from128 | dec_json_parse | uint_json_parse
+pub fn ev_text(op: &str, v: U256, text: &str) -> Value {
+    use std::str::FromStr;
+    // the 128-bit source type can only hold the low 128 bits
+    let v = if op == "dec_from128" { u256_from_u128(u256_to_u128(&v).unwrap_or(0)) } else { v };
+    let body = match op {
+        "dec_render" => json!({"s": jstr(&Decimal256(v).to_string())}),
+        "uint_render" => {
+            let a = Uint256(v).to_string();
+            let b: String = Uint256(v).into();
+            json!({"s": jstr(&a), "s2": jstr(&b)})
+        }
+        "dec_parse" => json!({"r": parse_res(guard(|| Decimal256::from_str(text).map(|d| d.0).map_err(|_| ())))}),
+        "uint_parse" => {
+            let a = parse_res(guard(|| Uint256::from_str(text).map(|d| d.0).map_err(|_| ())));
+            let b = parse_res(guard(|| Uint256::try_from(text).map(|d| d.0).map_err(|_| ())));
+            json!({"r": a, "r2": b})
+        }
+        "dec_json_parse" => {
+            let js = serde_json::to_string(text).unwrap();
+            json!({"r": parse_res(guard(|| serde_json::from_str::<Decimal256>(&js).map(|d| d.0).map_err(|_| ())))})
+        }
+        "uint_json_parse" => {
+            let js = serde_json::to_string(text).unwrap();
+            json!({"r": parse_res(guard(|| serde_json::from_str::<Uint256>(&js).map(|d| d.0).map_err(|_| ())))})
+        }
+        "dec_roundtrip" => {
+            let d = Decimal256(v);
+            let direct = parse_res(guard(|| Decimal256::from_str(&d.to_string()).map(|x| x.0).map_err(|_| ())));
+            let viajson = parse_res(guard(|| {
+                let js = serde_json::to_string(&d).map_err(|_| ())?;
+                serde_json::from_str::<Decimal256>(&js).map(|x| x.0).map_err(|_| ())
+            }));
+            let viawasm = parse_res(guard(|| {
+                let js = cosmwasm_std::to_vec(&d).map_err(|_| ())?;
+                cosmwasm_std::from_slice::<Decimal256>(&js).map(|x| x.0).map_err(|_| ())
+            }));
+            json!({"r": direct, "r2": viajson, "r3": viawasm})
+        }
+        "uint_roundtrip" => {
+            let d = Uint256(v);
+            let direct = parse_res(guard(|| Uint256::from_str(&d.to_string()).map(|x| x.0).map_err(|_| ())));
+            let viajson = parse_res(guard(|| {
+                let js = serde_json::to_string(&d).map_err(|_| ())?;
+                serde_json::from_str::<Uint256>(&js).map(|x| x.0).map_err(|_| ())
+            }));
+            let viawasm = parse_res(guard(|| {
+                let js = cosmwasm_std::to_vec(&d).map_err(|_| ())?;
+                cosmwasm_std::from_slice::<Uint256>(&js).map(|x| x.0).map_err(|_| ())
+            }));
+            json!({"r": direct, "r2": viajson, "r3": viawasm})
+        }
+        "dec_to128" => {
+            // From<Decimal256> for Decimal
+            let r = guard(|| {
+                let d: Decimal = Decimal256(v).into();
+                u256_from_u128(d.atomics().u128())
+            });
+            json!({"r": parse_res(r.map(Ok))})
+        }
+        "dec_from128" => {
+            // From<Decimal> for Decimal256 (value must fit 128 bits: taken from the low words)
+            let a = u256_to_u128(&v).unwrap_or(0);
+            let r = guard(|| {
+                let d = Decimal::from_atomics(Uint128::new(a), 18).unwrap();
+                let x: Decimal256 = d.into();
+                x.0
+            });
+            json!({"r": parse_res(r.map(Ok))})
+        }
+        _ => panic!("unknown text op {}", op),
+    };
+    let mut e = json!({"k": "text", "op": op, "v": j256(&v), "s_in": jstr(text),
+                       "args": [op.to_string(), v.to_string(), text.to_string()],
+                       "h": format!("text {} v={} s={:?}", op, v, text)});
+    for (k, val) in body.as_object().unwrap() {
+        e[k] = val.clone();
+    }
+    e
+}
+
+fn gen_numeral(r: &mut Rng) -> String {
+    // numerals over digits and dots: structured lengths around the 18-digit fraction limit and the 78-digit range
+    let digits = |r: &mut Rng, n: usize, lead_zero: bool| -> String {
+        let mut s = String::new();
+        for i in 0..n {
+            let rd = r.below(10);
+            let d = if i == 0 && !lead_zero { r.range(1, 9) } else { *r.pick(&[0u64, 0, 1, 5, 9, rd]) };
+            s.push(char::from(b'0' + d as u8));
+        }
+        s
+    };
+    match r.below(10) {
+        0 => {
+            let n = r.range(1, 80) as usize;
+            let lz = r.chance(1, 4);
+            digits(r, n, lz)
+        }
+        1 | 2 | 3 => {
+            let nw = *r.pick(&[1usize, 1, 2, 5, 20, 40, 59, 60, 61]);
+            let lz = r.chance(1, 4);
+            let w = digits(r, nw, lz);
+            let nf = *r.pick(&[1usize, 2, 6, 17, 18, 18, 19, 20, 30]);
+            let f = digits(r, nf, true);
+            format!("{}.{}", w, f)
+        }
+        4 => {
+            // values near the maximum 115792089237316195423570985008687907853269984665640564039457.584007913129639935
+            let base = "115792089237316195423570985008687907853269984665640564039457";
+            let fr = *r.pick(&["584007913129639935", "584007913129639936", "584007913129639934", "6", "5", "58400791312963993"]);
+            let w = if r.chance(1, 3) { "115792089237316195423570985008687907853269984665640564039458" } else { base };
+            format!("{}.{}", w, fr)
+        }
+        5 => {
+            // short strings over a tiny alphabet, dots anywhere
+            let n = r.range(0, 6) as usize;
+            (0..n).map(|_| *r.pick(&['0', '1', '9', '.'])).collect()
+        }
+        6 => {
+            let (a, b, c) = (digits(r, 2, false), digits(r, 2, true), digits(r, 1, true));
+            format!("{}.{}.{}", a, b, c)
+        }
+        7 => {
+            let k = r.range(1, 18) as usize;
+            format!("0.{}{}", "0".repeat(k - 1), r.range(1, 9))
+        }
+        8 => {
+            let w = digits(r, 3, false);
+            format!("{}.{}", w, "0".repeat(r.range(1, 20) as usize))
+        }
+        _ => {
+            // uint-like huge numerals around 2^256
+            let m = "115792089237316195423570985008687907853269984665640564039457584007913129639935";
+            match r.below(3) { 0 => m.to_string(), 1 => format!("{}0", &m[..77]), _ => "115792089237316195423570985008687907853269984665640564039457584007913129639936".to_string() }
+        }
+    }
 }
 
 // ---------------------------------------------------------------------------------------------
@@ -335,6 +490,10 @@ fn increment_offers(x: u128, y: u128, k: u128) -> Vec<u128> {
 pub fn run(seed: u64, n: usize, kinds: &[String], out: &mut dyn Write) -> std::io::Result<usize> {
     let mut r = Rng::new(seed);
     let mut count = 0usize;
+    const KNOWN: [&str; 8] = ["swap", "reverse", "share", "maxspread", "slip", "arith", "text", "swapmono"];
+    for k in kinds.iter() {
+        assert!(KNOWN.contains(&k.as_str()), "unknown math event kind {}", k);
+    }
     let want = |k: &str| kinds.is_empty() || kinds.iter().any(|x| x == k);
     let emit = |v: Value, out: &mut dyn Write, count: &mut usize| -> std::io::Result<()> {
         writeln!(out, "{}", v)?;
@@ -357,7 +516,48 @@ pub fn run(seed: u64, n: usize, kinds: &[String], out: &mut dyn Write) -> std::i
         }
     }
 
+    if want("text") && !kinds.is_empty() {
+        // exhaustive short numerals over {0,1,9,.} up to length 4
+        let alpha = ['0', '1', '9', '.'];
+        let mut all: Vec<String> = vec![String::new()];
+        let mut frontier = vec![String::new()];
+        for _ in 0..4 {
+            let mut next = vec![];
+            for p in frontier.iter() {
+                for c in alpha.iter() {
+                    let mut q = p.clone();
+                    q.push(*c);
+                    next.push(q);
+                }
+            }
+            all.extend(next.iter().cloned());
+            frontier = next;
+        }
+        for sx in all.iter() {
+            if count >= n { break; }
+            emit(ev_text("dec_parse", U256::zero(), sx), out, &mut count)?;
+            if count < n && r.chance(1, 3) { emit(ev_text("uint_parse", U256::zero(), sx), out, &mut count)?; }
+        }
+    }
     while count < n {
+        if want("text") && (kinds.len() == 1 || r.chance(1, 8)) {
+            let ops = ["dec_render", "uint_render", "dec_parse", "uint_parse", "dec_roundtrip", "uint_roundtrip",
+                       "dec_to128", "dec_from128", "dec_json_parse", "uint_json_parse"];
+            let op = *r.pick(&ops);
+            let v = match r.below(4) {
+                0 => {
+                    // leading / trailing fractional zeros: w * 10^18 + f * 10^k
+                    let w = pal256(&mut r) / u(D18) / U256::from(2u64);
+                    let k = r.range(0, 17) as u32;
+                    let f = r.below128(pow10_128(18 - k));
+                    w * u(D18) + u(f) * u(pow10_128(k))
+                }
+                _ => pal256(&mut r),
+            };
+            let text = gen_numeral(&mut r);
+            emit(ev_text(op, v, &text), out, &mut count)?;
+            continue;
+        }
         let kind = r.below(100);
         if kind < 34 {
             if !want("swap") {
